@@ -152,3 +152,26 @@ example : (doprnt "%d<%Zx>%s".toList [.int 7, .mpz 255, .str "z".toList]).map (f
 
 
 end Mpir.Printf
+
+namespace Mpir.Scanf
+open Mpir.Printf
+
+/-- `scan_print_roundtrip_partial`: the conversion at the bottom of gmp_sscanf("%Zd") (mpz_set_str, base 10) gives
+    back every integer from the digit string at the bottom of gmp_printf("%Zd") (mpz_get_str), for all values.
+    FULL STATEMENT (not proved; exercised by the `gmp_print_scan_Z/Q` ops over the whole flag/width/precision grid):
+    for every v and every print format % flags width prec Z conv with at least one digit printed,
+    `doscan "%Z<conv'>" (callsBytes (doprnt fmt [v]))` returns count 1 and the value v, where conv' is the matching
+    read conversion (d for d/i, o for o, x for x/X without `#`, i for `#` forms); the same for Q. -/
+theorem scan_print_roundtrip_partial (v : Int) : setStr (mpzGetStr 10 v) 10 = some v :=
+  setStr_getStr10 v
+
+-- non-vacuity, through the whole model: print with flags and width, scan the text back
+example : ((doprnt "%+-12Zd|".toList [.mpz (-(10 : Int) ^ 5)]).bind
+    (fun r => doscan "%Zd".toList (callsBytes r.calls))).map (fun s => (s.fields, s.rest)) =
+    some (1, "     |".toList) := by decide +kernel
+example : (doscan "%Zi %Qi%n".toList "-0x1f 0x10/0x11;".toList).map (fun s => s.fields) = some 2 := by decide +kernel
+-- the scanner takes no 0x prefix in a fixed base (observation S1): "%Zx" stops after the 0
+example : (gmpscan { base := 16, type := 'Z' } "0x1f".toList).ret = 1 := by decide +kernel
+
+end Mpir.Scanf
+
